@@ -24,7 +24,7 @@ fn attach(o: &Observable<'static, u8>, log: &'static Log) -> Subscription<'stati
 macro_rules! conn_h {
   ($name:ident, |$slot:ident, $slog:ident, $l1:ident, $l2:ident, $src:ident| $body:block) => {
     #[kani::proof]
-    #[kani::unwind(4)]
+    #[kani::unwind(3)]
     fn $name() {
       let $slot: &'static Slot<Observer<'static, u8>> = Slot::new();
       let $slog = Log::new();
